@@ -4,6 +4,7 @@ This module also hosts the generator / printer / resolver of the refactoring sub
 (`from props import C19 as R`)."""
 import concurrent.futures
 import json
+import re
 import os
 import shutil
 import tempfile
@@ -1152,6 +1153,38 @@ def search_rename(ctx, exe, progs, label, nonfresh=True):
     return meta, outs
 
 
+SWEEP_BODY = ('let total = 1\n'
+              'let f = fun(n) { if n > total { True } else { False } }\n'
+              'let r = match Some(total) { Some(v) => Ok(v + total), None => Err("none") }\n'
+              'println(string_repr((f(2), not(f(0)), r, [total].len(), Unit, max(total, 2))))\n'
+              'dbg(total)\n'
+              'total\n')
+
+
+def offset_sweep(ctx, exe, max_pad):
+    """A definition is identified by FILE and offset. The same small program (one local `total`, uses of prelude
+    definitions: True, False, not, Unit, Ok, Err, Some, None, dbg, max, println, methods) is shifted byte by byte with a
+    leading comment, so that the local's definition takes every byte offset from 4 to max_pad + 4, among them the offsets
+    at which the prelude defines the names the program uses. Renaming the local must rewrite exactly its occurrences."""
+    jobs, meta = [], []
+    for pad in range(0, max_pad + 1):
+        src = "//" + "-" * pad + "\n" + SWEEP_BODY
+        off = src.index("let total") + 4
+        jobs.append(("rename", src, off, None, FRESH))
+        meta.append((src, off, re.sub(r"\btotal\b", FRESH, src)))
+    outs = refactor_many(exe, jobs, ctx, cli_sample=150)
+    for (src, off, want), (rc, out, err) in zip(meta, outs):
+        ctx.case({"sweep_offset": off}, True)
+        ctx.stat("offset sweep positions")
+        if rc != 0 or out != want:
+            ctx.violation("C19:rename-wrong-occurrences:definition-offset-collision",
+                          "renaming the local `total` defined at byte offset %d rewrites other symbols (or fails): a definition "
+                          "in another file (the prelude) at the same offset is taken for the local" % off,
+                          {"input": src, "offset": off, "new_name": FRESH, "expected": want, "observed": out if rc == 0 else err,
+                           "cli_command": "garden reftest-rename <file with the input> %d --new-name %s" % (off, FRESH)})
+            break
+
+
 TRUSTED = [
     "Coq 8.16.1 kernel (coqc); vm_compute only in Examples",
     "coq/Scope.v and coq/Refactor.v are HAND-WRITTEN models (lexical resolution, reference semantics, rename); tied to "
@@ -1173,6 +1206,7 @@ def run(ctx):
     n = 400 if ctx.thorough else 50
     progs = [gen_program(rng, size=6) for _ in range(n)]
     search_rename(ctx, exe, progs, "full")
+    offset_sweep(ctx, exe, 3000 if ctx.thorough else 1100)
     model_part(ctx, exe, rng)
 
 
